@@ -707,6 +707,12 @@ def _lines(ctx):
         for k in c.keywords
         if k.arg == "state" and isinstance(k.value, ast.Name)
     }
+    # ... or calls it directly in a loop: cst_parse_one_node(chunk, state=S) / cst_parse_one_node(chunk, S)
+    direct = [c for c in iter_own(parser.node) if isinstance(c, ast.Call) and norm(c.func) == "cst_parse_one_node"]
+    for c in direct:
+        sv = next((k.value for k in c.keywords if k.arg == "state"), c.args[1] if len(c.args) > 1 else None)
+        if isinstance(sv, ast.Name):
+            snames.add(sv.id)
     ctx.need(len(snames) == 1, "cst_parser no longer hands one local as state= to cst_parse_one_node")
     sname = snames.pop()
     state_init = [n for n in iter_own(parser.node) if isinstance(n, ast.Assign) and norm(n.targets[0]) == sname and isinstance(n.value, ast.Dict)]
@@ -758,6 +764,21 @@ def _lines(ctx):
         isinstance(n, ast.Call) and norm(n.func) in ("deque", "list", "tuple") and n.args and n.args[0] in maps
         for n in iter_own(parser.node)
     )
+    if not maps and direct:
+        # the loop form: `for chunk in <scanned>: cst_parse_one_node(chunk, state=S)` — the call is an unconditional
+        # top-level statement of a loop over exactly the parameter, the loop itself is unconditional, no break/continue
+        loops = [
+            n
+            for n in parser.node.body
+            if isinstance(n, ast.For) and norm(n.iter) == parser.params[0] and isinstance(n.target, ast.Name) and not n.orelse
+        ]
+        ok = drained = (
+            len(loops) == 1
+            and len(direct) == 1
+            and any(isinstance(st, ast.Expr) and st.value is direct[0] for st in loops[0].body)
+            and norm(direct[0].args[0]) == loops[0].target.id
+            and not any(isinstance(x, (ast.Break, ast.Continue, ast.Return)) for st in loops[0].body for x in ast.walk(st))
+        )
     ctx.ob(
         "C09.lines",
         parser,
